@@ -452,47 +452,59 @@ def atExponent : List Nat → Bool
   | [e, s] => isE e && isDec s
   | _ => false
 
-/-- `Ok(consumed)` or the error position, both relative to the start of the numeral.
-    `f64::from_str` of the collected text fails exactly when an exponent marker was consumed without
-    digits after it; `BigInt::from_str_radix` fails exactly on the empty text. -/
-def lexNormalNumber (cs : List Nat) : Except Nat Nat :=
-  let n := cs.length
+/-- the fraction after the integer part: at a `.`, an underscore directly after it is an error
+    (located at the `.`), otherwise the digits are taken.  Results are REMAINDERS of the input. -/
+def lexFraction (r1 : List Nat) : Except (List Nat) (List Nat) :=
+  match r1 with
+  | 46 :: t => if headIs (· = 95) t then .error r1 else .ok (radixRun 10 t).2
+  | _ => .ok r1
+
+/-- the exponent: `e`/`E` is consumed unconditionally on this path, then an optional sign, then the
+    digits; the flag says that no digit followed (`f64::from_str` then fails). -/
+def lexExponent (r2 : List Nat) : Except (List Nat) (List Nat × Bool) :=
+  match r2 with
+  | e :: t =>
+    if isE e then
+      if headIs (· = 95) t then .error r2
+      else
+        match t with
+        | s :: t' =>
+          if isSign s then
+            if headIs (· = 95) t' then .error t
+            else
+              let dr := radixRun 10 t'
+              .ok (dr.2, dr.1.isEmpty)
+          else
+            let dr := radixRun 10 t
+            .ok (dr.2, dr.1.isEmpty)
+        | [] => .ok ([], true)
+    else .ok (r2, false)
+  | [] => .ok ([], false)
+
+def dropJ : List Nat → List Nat
+  | c :: t => if isJ c then t else c :: t
+  | [] => []
+
+/-- `lex_normal_number`: `.ok rest` = the token ends where `rest` begins, `.error rest` = lexical
+    error located where `rest` begins.  `f64::from_str` of the collected text fails exactly when an
+    exponent marker was consumed without digits after it. -/
+def lexNormalRest (cs : List Nat) : Except (List Nat) (List Nat) :=
   let startZero := headIs (· = 48) cs
-  let (d1, r1) := radixRun 10 cs
-  if headIs (· = 46) r1 || atExponent r1 then
-    -- optional fraction
-    let afterDot : Except Nat (List Nat) :=
-      if headIs (· = 46) r1 then
-        if headIs (· = 95) r1.tail then .error (n - r1.length)
-        else .ok (radixRun 10 r1.tail).2
-      else .ok r1
-    match afterDot with
+  let dr := radixRun 10 cs
+  if headIs (· = 46) dr.2 || atExponent dr.2 then
+    match lexFraction dr.2 with
     | .error e => .error e
     | .ok r2 =>
-      let afterExp : Except Nat (List Nat × Bool) :=      -- rest, exponent digits missing
-        if headIs isE r2 then
-          if headIs (· = 95) r2.tail then .error (n - r2.length)
-          else
-            let r3 := r2.tail
-            if headIs isSign r3 then
-              if headIs (· = 95) r3.tail then .error (n - r3.length)
-              else
-                let (d, r4) := radixRun 10 r3.tail
-                .ok (r4, d.isEmpty)
-            else
-              let (d, r4) := radixRun 10 r3
-              .ok (r4, d.isEmpty)
-        else .ok (r2, false)
-      match afterExp with
+      match lexExponent r2 with
       | .error e => .error e
-      | .ok (r5, bad) =>
-        if bad then .error (n - r5.length)
-        else if headIs isJ r5 then .ok (n - r5.length + 1) else .ok (n - r5.length)
-  else if headIs isJ r1 then .ok (n - r1.length + 1)
-  else if startZero && d1.any (· ≠ 48) then .error (n - r1.length)
-  else .ok (n - r1.length)
+      | .ok (r5, bad) => if bad then .error r5 else .ok (dropJ r5)
+  else if headIs isJ dr.2 then .ok dr.2.tail
+  else if startZero && dr.1.any (· ≠ 48) then .error dr.2
+  else .ok dr.2
 
-def lexNumber (cs : List Nat) : Except Nat Nat :=
+/-- `lex_number`: radix prefixes, else `lex_normal_number`.  `BigInt::from_str_radix` fails exactly on
+    the empty digit string, and that error is located at the START of the literal. -/
+def lexRest (cs : List Nat) : Except (List Nat) (List Nat) :=
   match cs with
   | 48 :: x :: rest =>
     let radix : Option Nat :=
@@ -500,16 +512,28 @@ def lexNumber (cs : List Nat) : Except Nat Nat :=
       else if x = 98 || x = 66 then some 2 else none
     match radix with
     | some r =>
-      let (d, r') := radixRun r rest
-      if d.isEmpty then .error 0 else .ok (cs.length - r'.length)
-    | none => lexNormalNumber cs
-  | _ => lexNormalNumber cs
+      let dr := radixRun r rest
+      if dr.1.isEmpty then .error cs else .ok dr.2
+    | none => lexNormalRest cs
+  | _ => lexNormalRest cs
+
+/-- `Ok(consumed)` or the error position, both relative to the start of the numeral -/
+def lexNumber (cs : List Nat) : Except Nat Nat :=
+  match lexRest cs with
+  | .ok r => .ok (cs.length - r.length)
+  | .error r => .error (cs.length - r.length)
 
 /-- the whole text is one numeric literal for the lexer -/
 def acceptsNumber (cs : List Nat) : Bool :=
-  match lexNumber cs with
-  | .ok n => n == cs.length
+  match lexRest cs with
+  | .ok r => r.isEmpty
   | .error _ => false
+
+/-- `lex_number` is entered at a digit, or at a `.` that is followed by a digit -/
+def startsNumber : List Nat → Bool
+  | 46 :: d :: _ => isDec d
+  | c :: _ => isDec c
+  | [] => false
 
 /-! ### the token language of the `num` stream: numerals, names, `.`, `...`, `+` -/
 
